@@ -627,11 +627,11 @@ func c12Cyclic() []*Case {
 	}
 	P := KwPrint
 	cs := []cyc{
-		{"self", fmt.Sprintf("%s o = {alpha: 1};\no.self = o;\n%s \"@P\";\n%s o;\n%s o.self.self.alpha;\n%s %s(o);\n%s \"@DONE\";\n", KwVar, P, P, P, P, FnKeys, P), []string{"alpha:", "self:"}},
-		{"mutual", fmt.Sprintf("%s p = {beta: 2};\n%s q = {gamma: 3};\np.fwd = q;\nq.back = p;\n%s \"@P\";\n%s p;\n%s p.fwd.back.fwd.gamma;\n%s %s(p);\n%s \"@DONE\";\n", KwVar, KwVar, P, P, P, P, FnValues, P), []string{"beta:", "fwd:", "gamma:", "back:"}},
-		{"through-array", fmt.Sprintf("%s o = {list: [1, 2], delta: 4};\no.list[0] = o;\n%s \"@P\";\n%s o;\n%s o.list[0].delta;\n%s %s(o);\n%s \"@DONE\";\n", KwVar, P, P, P, P, FnValues, P), []string{"list:", "delta:"}},
+		{"self", fmt.Sprintf("%s o = {alpha: 1};\no.self = o;\n%s \"@P\";\n%s o;\n%s o.self.self.alpha;\n%s %s(o);\n%s \"@DONE\";\n", KwVar, P, P, P, P, FnKeys, P), []string{"alpha", "self"}},
+		{"mutual", fmt.Sprintf("%s p = {beta: 2};\n%s q = {gamma: 3};\np.fwd = q;\nq.back = p;\n%s \"@P\";\n%s p;\n%s p.fwd.back.fwd.gamma;\n%s %s(p);\n%s \"@DONE\";\n", KwVar, KwVar, P, P, P, P, FnValues, P), []string{"beta", "fwd", "gamma", "back"}},
+		{"through-array", fmt.Sprintf("%s o = {list: [1, 2], delta: 4};\no.list[0] = o;\n%s \"@P\";\n%s o;\n%s o.list[0].delta;\n%s %s(o);\n%s \"@DONE\";\n", KwVar, P, P, P, P, FnValues, P), []string{"list", "delta"}},
 		{"deep-20", fmt.Sprintf("%s d = {leaf: 1};\n%s (%s i = 0; i < 20; i = i + 1) { d = {child: d, n: i}; }\n%s \"@P\";\n%s d;\n%s d.child.child.child.n;\n%s %s(d);\n%s \"@DONE\";\n", KwVar, KwFor, KwVar, P, P, P, P, FnKeys, P),
-			[]string{"leaf:1", "n:0", "n:19", "child:map[child:map[child:map[child:map[child:map[child:map[child:map[child:map[child:map[child:map[child:map[child:map[child:map[child:map[child:map[child:map[child:map[child:map[child:map[child:map[leaf:1]"}},
+			[]string{"leaf", "19", "#20xchild"}},
 		{"repl-echo", "", nil},
 	}
 	var out []*Case
@@ -708,6 +708,13 @@ func c12Eval(cs *Case, ctx *EvalCtx) []Violation {
 				mk("output-truncated", fmt.Sprintf("stdout=%q", clip(o.Stdout)))
 			} else {
 				for _, t := range cs.Notes {
+					if strings.HasPrefix(t, "#20x") {
+						if strings.Count(ls[1], strings.TrimPrefix(t, "#20x")) < 20 {
+							mk("print-missing-property", fmt.Sprintf("printing a 20-deep nested object shows %q: fewer than 20 nested %q properties", clip(ls[1]), strings.TrimPrefix(t, "#20x")))
+							break
+						}
+						continue
+					}
 					if !strings.Contains(ls[1], t) {
 						mk("print-missing-property", fmt.Sprintf("printing the object shows %q: %q is missing", clip(ls[1]), t))
 						break
@@ -877,7 +884,7 @@ func c12CheckRun(cs *Case, ex *C12Expect, run int, o Obs) *Violation {
 		}
 		whole, _ := next()
 		for _, k := range sortedKeys(b.Model) {
-			if !strings.Contains(whole, nfc(k)+":") {
+			if !strings.Contains(whole, nfc(k)) {
 				return mk("print-missing-property", sig, fmt.Sprintf("step %d: printing %s shows %q, property %q is missing", b.Step, b.Var, whole, k))
 			}
 		}
@@ -887,7 +894,7 @@ func c12CheckRun(cs *Case, ex *C12Expect, run int, o Obs) *Violation {
 		}
 		sort.Strings(tk)
 		for _, k := range tk {
-			if strings.Count(whole, nfc(k)+":") < b.Tokens[k] {
+			if strings.Count(whole, nfc(k)) < b.Tokens[k] {
 				return mk("print-missing-property", sig, fmt.Sprintf("step %d: printing %s shows %q: property %q must appear %d times (nested objects included)", b.Step, b.Var, whole, k, b.Tokens[k]))
 			}
 		}
@@ -922,11 +929,12 @@ func c12CheckRun(cs *Case, ex *C12Expect, run int, o Obs) *Violation {
 }
 
 func c12ValMatches(v C12Val, line string) bool {
-	if v.Ref > 0 {
-		return strings.HasPrefix(line, "map[")
+	// how a nested object or array is rendered is not C12's business: any non-empty text
+	if v.Ref > 0 || v.ArrRef > 0 {
+		return strings.TrimSpace(line) != ""
 	}
-	if v.ArrRef > 0 {
-		return strings.HasPrefix(line, "[map[")
+	if v.Text == "[1 2]" {
+		return strings.Contains(line, "1") && strings.Contains(line, "2") && !strings.Contains(line, "3")
 	}
 	if v.Empty {
 		return line == ""
